@@ -264,6 +264,24 @@ def check_grammar_error_context(repo: Repo, where: str, thorough: bool = False) 
             wl = ref_line_of(text, p).rstrip("\n")
             if cur not in (wl, wl.rstrip()):
                 bad.append((f"the source line shown is not the line of the position {where_}", f"{desc}: shows {cur!r}, the line is {wl!r}"))
+    for text in long_texts():
+        for p in sorted({0, 1, 39, 40, 41, 79, 80, 81, 95, 96, 97, 119, 120, 121, 127, 128, 129, 199, 200, 255, 256, 257, len(text) - 1, len(text)}):
+            if not 0 <= p <= len(text):
+                continue
+            n += 1
+            desc = f"a text with a line of {max(len(x) for x in text.split(chr(10)))} characters ({text[:12]!r}...), offset {p}"
+            try:
+                got = cm.call(err_obj, "_error_context", text, p)
+            except ModelRaise as err:
+                bad.append(("_error_context raises on a long line", f"{desc}: {err}"))
+                continue
+            if not (isinstance(got, tuple) and len(got) == 5):
+                bad.append(("_error_context does not return (line number, column, previous, current, next)", f"{desc}: {got!r}"))
+                continue
+            ln, col = got[0], got[1]
+            wl_, wc = ref_line_col(text, p)
+            if (ln, col) != (wl_, wc - 1):
+                bad.append(("the line and column reported are not those of the position on a long line", f"{desc}: reports line {ln}, column {col} (0-based), the position is at line {wl_}, column {wc - 1}"))
     for text in crlf_texts():
         for p in range(len(text) + 1):
             n += 1
